@@ -28,7 +28,8 @@ CHECKS = {
         "Trusted: Lean kernel; tools/mainlooplib.py (sys.monitoring recorder), tools/recoglib.py (sentinel stubs for collaborators). Findings: F-HANG (19 listed inputs), 36 tokenization-failure "
         "call sites F-TOK-* (8.9 k listed inputs in findings/C01.inputs.json, 86 % of them involve a TAB after a container marker), F-X05 (render)."),
  "C02": dict(
-   technique="Lean 4 proof over faithful models of the in-band marker codec, tab expansion, final-newline correction and pragma re-insertion + exhaustive "
+   technique="Lean 4 proof over faithful models of the in-band marker codec, tab expansion, final-newline correction, pragma re-insertion, the container tokens' per-line prefix store "
+             "and the per-leaf field splits + exhaustive "
              "function-level correspondence with the real (private) functions + document-level identity oracle on registered strata with footprint-identified findings",
    design_ref="DESIGN.md §6 C02, §5.1, §5.2, §4 (strata)",
    text="Theorems over Verif.Model.Codec / Verif.Model.Tabs (index loops of parser_helper.py mirrored, defects included): remove_encode and resolve_encode (remove_all_from_text / "
@@ -36,7 +37,15 @@ CHECKS = {
         "escape_roundtrip(+_resolve) for escape_special_characters, and the negative results that fix the domain: codec_collision_x05(_raises), codec_collision_empty_replacement, "
         "escape_roundtrip_excluded, resolveBackspaces_defects (hang at index 0, resume one too far), sentinel_collision / stripSentinels_id (U+00FE, U+8268, U+8269 are deleted, nothing else); "
         "detabify_eq_detab (the section loop of detabify_string = one-pass reference), detab_noTab, detab_id_of_noTab, detab_length_ge, colAfter_mono/_strict, tab_stop; final_newline_rule; "
-        "pragma_reinsert(_doc) with its two excluded points proved real. Tie: every modelled function vs the real function on all 137 257 strings of length <= 6 over "
+        "pragma_reinsert(_doc) with its two excluded points proved real. Over Verif.Model.LeadingSpaces (the newline-joined per-line prefix store of list / block-quote tokens as the code "
+        "keeps it: None vs \"\" vs joined parts, leading_text_index, tabbed originals, the regenerator's two look-ups, explicit AssertionError / IndexError / KeyError, Python negative-index wrap): "
+        "leading_store_roundtrip (consumeAll (storeAll ps) = ps for every list of newline-free prefixes), leading_store_roundtrip_bq (= bqNormal ps: the exact effect of \"\".split == [\"\"]), "
+        "leading_index_inv (0 <= index <= len(split) along every run that respects the protocol Legal), remove_last_undoes_add(_bq), with witnesses for every excluded point "
+        "(leading_store_excluded, leading_index_excluded, remove_last_excluded). Over Verif.Model.LeafFields: atx_fields, thematic_fields, setext_fields, fence_close_fields, blank_fields "
+        "(reassemble (fields line) = line for EVERY line the leaf recogniser accepts) and fence_open_fields_partial + fence_open_fields_excluded (an opening fence without info string and with "
+        "trailing white space stores that white space twice: F-FENCE-TRAILWS proved at field level). Tie: REAL token objects under all 2.27 M operation sequences of length <= 6 over six prefixes "
+        "(11.6 M operations compared, state and exception after each), every store operation of the real parser / regenerator on ~9 k documents recorded by a class-level tracer and replayed through "
+        "the model and through Legal, and the block-pass tokens + regenerated line of all 666 k strings of length <= 6 over each recogniser alphabet parsed by the real parser. Tie: every modelled function vs the real function on all 137 257 strings of length <= 6 over "
         "{\\b,\\a,U+0005,U+0003,\\,x,&} (each real call under a CPU timer; 5.9 M evaluations, hangs and ValueErrors included), 37 k piece lists encoded by the real encoders, tab / nth-occurrence / "
         "final-newline / pragma functions on their own alphabets, sentinel constants by reflection. Oracle = the property itself: TransformToMarkdown().transform(tokens) == source on the registered "
         "strata (one-line documents over all 18 prefixes x 35 bodies; all 41 472 two-line core documents; the repo's 4 945 test documents; core documents wrapped in quote / list; Unicode sweep of 49 code "
